@@ -54,10 +54,15 @@ Definition nbt (b : btest) (v : dval) : bool := negb (btest_ok b v).
 (** ** PostTransforms *)
 Inductive ptop :=
 | TUpper | TAppend (s : string) | TAdd (n : Z) | TErr (s : string) | TMutErr (n : Z) (key s : string)
-| TIssue | TSetField (key s : string) | TSetFirst (s : string) | TNoop.
+| TIssue | TIssueBare | TSetField (key s : string) | TSetFirst (s : string) | TNoop.
 
 Definition user_issue : issue :=
   {| i_path := "user.path"; i_code := "user_code"; i_dtype := "user_type"; i_params := [];
+     i_msg := Some "user message"; i_err := None |}.
+
+(** a hand-built issue that says nothing about where it happened: it is reported as it is (empty path: the root key) *)
+Definition bare_issue : issue :=
+  {| i_path := ""; i_code := "user_code"; i_dtype := ""; i_params := [];
      i_msg := Some "user message"; i_err := None |}.
 
 Definition set_field (k s : string) (v : dval) : dval :=
@@ -83,6 +88,7 @@ Definition pt_sem (op : ptop) (v : dval) : dval * option uerr :=
      | _ => v
      end, Some (UErr e))
   | TIssue => (v, Some (UIssue user_issue))
+  | TIssueBare => (v, Some (UIssue bare_issue))
   | TSetField k s => (set_field k s v, None)
   | TSetFirst s => (set_first s v, None)
   | TNoop => (v, None)
